@@ -113,7 +113,11 @@ def ddSub (filt : Bool) (want : List (Nat × Nat)) (popIds : List Nat) :
 
 def lengthsOk (proj : List Nat) (snps : List Snp) : Bool := snps.all fun s => s.calls.length == proj.length
 
-def fn1 (pol : Bool) (n : Nat) (snps : List Snp) : Nat → Rat := fun i => spectrumAt pol [n] snps [i]
+/-- the one-population spectrum as a function of the derived count (`spectrumAt pol [n] snps [i]`, grouped once) -/
+def fn1 (pol : Bool) (n : Nat) (snps : List Snp) : Nat → Rat :=
+  let cd := countDict snps
+  let tab := (List.range (n + 1)).toArray.map fun i => specAt pol [n] cd [i]
+  fun i => if i ≤ n then tab.getD i 0 else specAt pol [n] cd [i]
 
 def showStats (S pi w tl tv : Rat) : String :=
   " ".intercalate [showRat S, showRat pi, showRat w, showRat tl, showRat tv]
@@ -138,7 +142,8 @@ def handle (toks : List String) : Option String :=
       let pol ← parseBool pol; let mc ← parseBool mc; let proj ← parseNatList proj; let snps ← parseSnps snps
       if !lengthsOk proj snps then some "err dim"
       else
-        let f := spectrumAt pol proj snps
+        let cd := countDict snps                 -- `spectrumAt pol proj snps = specAt pol proj (countDict snps)`, grouped once
+        let f := specAt pol proj cd
         some ("ok " ++ showData proj f ++ " " ++ showMask proj (maskAt pol mc proj) ++ " "
               ++ toString (countUsable pol proj snps) ++ " " ++ showRat (boxSum (shapeOf proj) f))
   | ["frag", size, snps] => do
@@ -152,7 +157,9 @@ def handle (toks : List String) : Option String :=
       let size ← size.toNat?; let pol ← parseBool pol; let proj ← parseNatList proj; let snps ← parseSnps snps
       if size = 0 then some "err size"
       else if !lengthsOk proj snps then some "err dim"
-      else some ("ok " ++ "|".intercalate ((fragment size snps).map fun c => showData proj (spectrumAt pol proj c)))
+      else some ("ok " ++ "|".intercalate ((fragment size snps).map fun c =>
+              let cd := countDict c
+              showData proj (specAt pol proj cd)))
   | ["boot", size, pol, mc, proj, choice, snps] => do
       let size ← size.toNat?; let pol ← parseBool pol; let mc ← parseBool mc; let proj ← parseNatList proj
       let choice ← parseNatList choice; let snps ← parseSnps snps
@@ -160,8 +167,9 @@ def handle (toks : List String) : Option String :=
       else if !lengthsOk proj snps then some "err dim"
       else
         let chunks := fragment size snps
+        let cds := chunks.map countDict          -- `bootAt pol proj chunks choice = bootAtCd pol proj (chunks.map countDict) choice`
         if choice.any (· ≥ chunks.length) then some "err choice"
-        else some ("ok " ++ showData proj (bootAt pol proj chunks choice) ++ " " ++ showMask proj (maskAt pol mc proj))
+        else some ("ok " ++ showData proj (bootAtCd pol proj cds choice) ++ " " ++ showMask proj (maskAt pol mc proj))
   | ["stats1", pol, n, snps] => do
       let pol ← parseBool pol; let n ← n.toNat?; let snps ← parseSnps snps
       if !lengthsOk [n] snps then some "err dim"
@@ -176,7 +184,8 @@ def handle (toks : List String) : Option String :=
       let pol ← parseBool pol; let proj ← parseNatList proj; let snps ← parseSnps snps
       if !lengthsOk proj snps then some "err dim"
       else
-        let f := spectrumAt pol proj snps
+        let cd := countDict snps
+        let f := specAt pol proj cd
         some ("ok " ++ showRat (fstASum proj f) ++ " " ++ showRat (fstDSum proj f) ++ " " ++ showRat (fstOf proj f))
   | ["direct1", n, cols] => do
       let n ← n.toNat?; let cols ← parseCols cols
@@ -195,7 +204,8 @@ def handle (toks : List String) : Option String :=
       let ns ← parseNatList ns; let mcols ← parseMCols mcols
       if mcols.any (fun cols => cols.map (·.length) ≠ ns) then some "err dim"
       else
-        let f := spectrumAt true ns (mcols.map snpOfCols)
+        let cd := countDict (mcols.map snpOfCols)
+        let f := specAt true ns cd
         some ("ok " ++ showRat (fstDirect ns mcols) ++ " " ++ showRat (fstOf ns f))
   | ["projw", m, n, i, j] => do
       let m ← m.toNat?; let n ← n.toNat?; let i ← i.toNat?; let j ← j.toNat?
@@ -208,7 +218,7 @@ def handle (toks : List String) : Option String :=
       some ("ok " ++ toString (chunkIdx size p))
   | ["shapes13"] =>
       some ("ok " ++ " ".intercalate ([accumulateShapeOk, foldIffUnpolarized, fromDataDictShapeOk, sShapeOk, keyParseShapeOk,
-        chunkLoopShapeOk, chunkRebuildShapeOk, bootstrapShapeOk].map fun (b : Bool) => if b then "1" else "0"))
+        chunkLoopShapeOk, chunkRebuildShapeOk, bootstrapShapeOk, foldMaskShapeOk].map fun (b : Bool) => if b then "1" else "0"))
   | _ => none
 
 end DadiVerif.Driver.DataDict
